@@ -186,11 +186,66 @@ def gen(rng, n, tier):
                 c["prob"] = rng.choice([0.3, 0.7, 1.0])
                 c["draw"] = rng.choice([0.0, 0.1, 0.4, 0.6, 0.9])
                 c["pick"] = rng.randint(0, 5)
+        # 25 %: the constraints are intentional ones defined through an external python file
+        # (constraint_from_external_definition); the expression text is always
+        # "source.cost(<scope>)", only the file differs from case to case
+        rels = ([c["rel"]] if "rel" in c else []) + list(c.get("cs", []))
+        if (kind in ("findopt", "asgcost", "argopt", "proj") and not c["bad"] and rels
+                and all(1 <= len(r["dims"]) <= (2 if kind == "proj" else 3) for r in rels)
+                and rng.random() < 0.25):
+            c["ext"] = True
         cases.append(c)
     return cases
 
 
 # ------------------------------------------------------------------ implementation
+_EXT = {"dir": None, "n": 0}
+
+
+def _ext_dir():
+    import atexit
+    import shutil
+    import tempfile
+    import os
+    if _EXT["dir"] is None or not os.path.isdir(_EXT["dir"]):
+        os.makedirs("/verif/.work", exist_ok=True)
+        d = tempfile.mkdtemp(prefix="c06src_", dir="/verif/.work")
+        _EXT["dir"] = d
+        atexit.register(shutil.rmtree, d, True)
+    return _EXT["dir"]
+
+
+def build_ext_rel(c, r, objs, name):
+    """the relation as an intentional constraint whose python code lives in its own file"""
+    import os
+    from pydcop.dcop.relations import constraint_from_external_definition
+    import itertools
+    dims = R.rel_dims(c, r)
+    _EXT["n"] += 1
+    path = os.path.join(_ext_dir(), "src_%d_%d.py" % (os.getpid(), _EXT["n"]))
+    lines = ["INF = float('inf')", "T = {"]
+    for pos, combo in enumerate(itertools.product(*[v["dom"] for v in dims])):
+        t = r["table"][pos]
+        lines.append("    %r: %s," % (tuple(combo), {"inf": "INF", "-inf": "-INF"}.get(t, repr(t))))
+    lines += ["}", "", "def cost(*args):", "    return T[args]", ""]
+    with open(path, "w") as f:
+        f.write("\n".join(lines))
+    _EXT.setdefault("files", []).append(path)     # removed when the case is over (slicing re-reads it)
+    expr = "source.cost(%s)" % ", ".join(R.vname(v["id"]) for v in dims)
+    return constraint_from_external_definition(name, path, expr, [objs[v["id"]] for v in dims])
+
+
+def _ext_cleanup():
+    import os
+    for p in _EXT.pop("files", []):
+        try:
+            os.remove(p)
+        except OSError:
+            pass
+
+
+def _rel(c, r, objs, name):
+    return build_ext_rel(c, r, objs, name) if c.get("ext") else R.build_rel(c, r, objs, name)
 class FakeRandom:
     """stands for the `random` module inside the algorithm module"""
 
@@ -314,15 +369,22 @@ def _run_isolated(c, objs):
 
 
 def run_impl(c):
+    try:
+        return _run_impl(c)
+    finally:
+        _ext_cleanup()
+
+
+def _run_impl(c):
     from pydcop.dcop import relations as Rel
     objs = R.build_vars(c)
     k = c["kind"]
     try:
         if k == "argopt":
-            vals, cost = Rel.find_arg_optimal(objs[0], R.build_rel(c, c["rel"], objs, "r"), c["mode"])
+            vals, cost = Rel.find_arg_optimal(objs[0], _rel(c, c["rel"], objs, "r"), c["mode"])
             return dict(values=list(vals), cost=R.tok(cost))
         if k == "proj":
-            r = R.build_rel(c, c["rel"], objs, "r")
+            r = _rel(c, c["rel"], objs, "r")
             return dict(rel=R.obs_rel(Rel.projection(r, objs[c["x"]], c["mode"])))
         if k == "optcost":
             v, cost = Rel.optimal_cost_value(objs[0], c["mode"])
@@ -331,7 +393,7 @@ def run_impl(c):
             return _run_isolated(c, objs)
         if k == "multi":
             return _run_multi(c, objs)
-        cs = [R.build_rel(c, r, objs, "c%d" % i) for i, r in enumerate(c["cs"])]
+        cs = [_rel(c, r, objs, "c%d" % i) for i, r in enumerate(c["cs"])]
         if k == "findopt":
             asg = R.asg_dict(c["asg"])
             vals, cost = Rel.find_optimal(objs[0], asg, cs, c["mode"])
@@ -633,6 +695,8 @@ def histogram(cases, obs):
         h[k] = h.get(k, 0) + 1
         if isinstance(o, dict) and "error" in o:
             h["raised " + o["error"]] = h.get("raised " + o["error"], 0) + 1
+        if c.get("ext"):
+            h["external-file constraints"] = h.get("external-file constraints", 0) + 1
         if c.get("fixed_width"):
             h["fixed-width " + c["fixed_width"]] = h.get("fixed-width " + c["fixed_width"], 0) + 1
         if isinstance(o, dict) and c["kind"] == "multi" and "cycles" in o:
